@@ -94,4 +94,6 @@ package signing
 //@   requires [requested-length-fits-the-message] round.temp.fullBytesLen == 0 || (0 < round.temp.fullBytesLen && round.temp.fullBytesLen <= 1048576 && blen(be(val(round.temp.m))) <= round.temp.fullBytesLen)
 //@   requires [session-id-size] len(round.temp.ssid) <= 4096
 //@   modifies *
+//@   site (*schnorr.ZKProof).Verify#0 : [C17.nonce-share-is-cofactor-cleared-before-its-proof-is-checked] torsionfree(round.Parameters.ec, px($arg2), py($arg2))
+//@   site signing.ecPointToExtendedElement#0 : [C17.nonce-share-is-cofactor-cleared-before-it-is-added-to-R] torsionfree(round.Parameters.ec, val($arg1), val($arg2))
 //@   loop 0 invariant round.started && riBytes != nil && fresh(riBytes)
